@@ -1,4 +1,4 @@
-import TinsModel.Follower.Model
+import TinsModel.Follower.Spec
 import Driver.Util
 /- line-protocol driver for property C07 (StreamFollower): model mode and spec (oracle) mode.
    Line formats: see harness/c07_follower.cpp. -/
@@ -97,7 +97,88 @@ def step (st : MState) (line : String) : MState × String :=
 
 def initModel : MState := {}
 
-def specStep (st : Unit) (_line : String) : Unit × String := (st, "unspecified")
-def initSpec : Unit := ()
+/-! ### oracle mode -/
+
+def parseSid (s : String) : Option Sid :=
+  match s.splitOn ":" with
+  | [fam, ca, mid, sp] =>
+    match mid.splitOn ">" with
+    | [cp, sa] => do
+      let ca ← hexToNat ca; let cp ← cp.toNat?; let sa ← hexToNat sa; let sp ← sp.toNat?
+      pure ⟨fam == "v6", ca, cp, sa, sp⟩
+    | _ => none
+  | _ => none
+
+def parseReason : String → Option Reason
+  | "TIMEOUT" => some .timeout | "BUFFERED_DATA" => some .bufferedData | "SACKED_SEGMENTS" => some .sackedSegments
+  | _ => none
+
+def parseObsEv (e : String) : Option ObsEv :=
+  let ws := words e
+  match ws with
+  | "new" :: sid :: rest => do
+    let sid ← parseSid sid; let p ← kvOf rest "partial"
+    pure (.new sid (p == "1"))
+  | "cdata" :: sid :: rest => do
+    let sid ← parseSid sid; let l ← (kvOf rest "len").bind (·.toNat?); let h ← (kvOf rest "h").bind (·.toNat?)
+    pure (.data sid true l h)
+  | "sdata" :: sid :: rest => do
+    let sid ← parseSid sid; let l ← (kvOf rest "len").bind (·.toNat?); let h ← (kvOf rest "h").bind (·.toNat?)
+    pure (.data sid false l h)
+  | "cooo" :: sid :: _ => (parseSid sid).map (fun s => .ooo s true)
+  | "sooo" :: sid :: _ => (parseSid sid).map (fun s => .ooo s false)
+  | ["closed", sid] => (parseSid sid).map .closed
+  | "term" :: sid :: r :: rest => do
+    let sid ← parseSid sid; let r ← parseReason r
+    let c ← (kvOf rest "chunks").bind (·.toNat?); let b ← (kvOf rest "bytes").bind (·.toNat?)
+    pure (.term sid r c b)
+  | _ => none
+
+/-- `none` = unparsable, `some none` = no stream -/
+def parseStatus (s : String) : Option (Option ObsStatus) :=
+  let ws := words s
+  match ws with
+  | ["none"] => some none
+  | sid :: rest => do
+    let sid ← parseSid sid
+    let g := fun k => (kvOf rest k).bind (·.toNat?)
+    let cch ← g "cch"; let sch ← g "sch"; let cb ← g "cb"; let sb ← g "sb"; let real ← g "real"
+    pure (some ⟨sid, cch, sch, cb, sb, real⟩)
+  | _ => none
+
+def showVerdict : Verdict → String
+  | .ok => "ok" | .unspecified => "unspecified" | .violates c d => s!"violates {c} {d}"
+
+def specStep (o : Oracle) (line : String) : Oracle × String :=
+  match line.splitOn " ||| " with
+  | [op, out] =>
+    let ws := words op
+    match ws with
+    | "case" :: rest => ({ cfg := (parseCfg rest).1 }, "ok")
+    | ["decl", fam, a, ap, b, bp, isn, hex] =>
+      match hexToNat a, ap.toNat?, hexToNat b, bp.toNat?, isn.toNat?, parseHex hex with
+      | some a, some ap, some b, some bp, some isn, some d =>
+        ({ o with decls := ⟨fam == "v6", ⟨a, ap⟩, ⟨b, bp⟩, isn, d⟩ :: o.decls }, "ok")
+      | _, _, _, _, _, _ => ({ o with broken := true }, "bad-line")
+    | ["find", fam, a, ap, b, bp] =>
+      match hexToNat a, ap.toNat?, hexToNat b, bp.toNat?, parseStatus ((out.drop 5).toString) with
+      | some a, some ap, some b, some bp, some st =>
+        let (o', v) := o.find (fam == "v6") ⟨a, ap⟩ ⟨b, bp⟩ st
+        (o', showVerdict v)
+      | _, _, _, _, _ => ({ o with broken := true }, "violates unparsable-output find")
+    | "pkt" :: _ =>
+      match parsePkt ws, out.splitOn " | " with
+      | some p, [evs, st] =>
+        let evs := if evs.trimAscii.toString == "-" then some [] else (evs.splitOn ";").mapM parseObsEv
+        match evs, parseStatus st with
+        | some evs, some st =>
+          let (o', v) := o.packet p evs st
+          (o', showVerdict v)
+        | _, _ => ({ o with broken := true }, "violates unparsable-output pkt")
+      | _, _ => ({ o with broken := true }, "violates unparsable-output pkt")
+    | _ => (o, "bad-line")
+  | _ => (o, "bad-line")
+
+def initSpec : Oracle := {}
 
 end Driver.C07
